@@ -1765,7 +1765,7 @@ class Executor(object):
         if a.pt == b.pt:
             if ka == 'cell':
                 return ptypes.cell_eq(a.t, b.t)
-            if ka in ('int', 'bool', 'str', 'float', 'key', 'seq', 'tuple', 'jkey', 'map'):
+            if ka in ('int', 'bool', 'str', 'float', 'key', 'seq', 'tuple', 'jkey', 'map', 'mtag'):
                 return Eq(a.t, b.t)
             if ka == 'opt' and not a.pt.args[0].is_ref():
                 return Eq(a.t, b.t)
